@@ -475,7 +475,8 @@ void World::setup_from_header() {
 				users.set(kv.first, o);
 				model.users[kv.first] = mu;
 			}
-			JV root = JV::obj(); root.set("users", users);
+			if (model.all_groups.size() >= 32) probe("credential_file_with_32_groups");
+		JV root = JV::obj(); root.set("users", users);
 			file_data = root.dump();
 			size_t pad = (size_t)cr->getd("pad_to", 0);
 			if (pad > file_data.size()) file_data.insert(file_data.size() - 1, std::string(pad - file_data.size(), ' '));
